@@ -1,6 +1,6 @@
 SPECIFICATION Spec
 CONSTANTS
- Mols <- MolsDev
+ Mols <- MCMols
  Dev = "parTrunc"
  FixedOrder = TRUE
 INVARIANT RoundTripI
